@@ -192,7 +192,7 @@ def run(
     res.ok = bool(finished) and res.violated is None
     if not res.ok and res.violated is None:
         # Not a property verdict: parse error, semantic error, crash...
-        tail = "\n".join(out.splitlines()[-40:])
+        tail = extract_error(out)[:2500] + "\n...\n" + "\n".join(out.splitlines()[-12:])
         res.error_text = tail
         raise TlcError(f"TLC failed (rc={p.returncode}) on {mod}:\n{tail}")
     if res.violated:
